@@ -290,3 +290,28 @@ Proof.
     apply closest_opp in C. rewrite Z.opp_involutive in C.
     apply (closest_Qeq (- - q)); auto. ring.
 Qed.
+
+(* ---------------------------------------------------------------- underflow and overflow shortcuts *)
+
+Lemma half_ulp : ulp_min == 2 * (1 # (2 ^ 1075)).
+Proof. vm_compute. reflexivity. Qed.
+
+Theorem underflowsb_sound q : underflowsb q = true -> closest q 0 (-1074).
+Proof.
+  unfold underflowsb. intros H. apply qleb_le in H. set (h := 1 # (2 ^ 1075)) in *.
+  apply Qabs_Qle_condition in H as [H1 H2].
+  split.
+  - repeat split; cbn; lia.
+  - intros m' e' (D1 & D2 & D3). rewrite dyadic_zero, (dyadic_units m' e' D2).
+    set (u' := units m' e'). pose proof half_ulp as HU. fold h in HU.
+    destruct (Z.eq_dec u' 0) as [E|E].
+    + rewrite E. change (inject_Z 0) with 0. setoid_replace (q - 0 * ulp_min) with (q - 0) by ring. apply Qle_refl.
+    + assert (Qabs (q - 0) <= h) as Hq by (apply Qabs_Qle_condition; split; lra).
+      apply (Qle_trans _ h); auto.
+      destruct (Z_lt_le_dec u' 0) as [L|L].
+      * assert (u' <= -1)%Z as L3 by lia. apply units_le_val in L3.
+        change (inject_Z (-1)) with (-1) in L3.
+        rewrite (Qabs_pos (q - inject_Z u' * ulp_min)); lra.
+      * assert (1 <= u')%Z as L3 by lia. apply units_le_val in L3. change (inject_Z 1) with 1 in L3.
+        rewrite (Qabs_neg (q - inject_Z u' * ulp_min)); lra.
+Qed.
